@@ -792,7 +792,7 @@ PROPS = {
     },
     "C12": {
         "props_file": "props/C12.v",
-        "flows": [(gen_pc.gen, "c12", 64, 640)],
+        "flows": [(gen_pc.gen, "c12", 64, 640), (gen_mlpc.gen, "c12", 10, 100)],
         "oracles": [pc_honest, pc_serialization],
         "filter": _names("rt", "sz", "len", "tr"),
         "title": "Canonical serialization",
